@@ -287,7 +287,21 @@ class ReleaseFallThrough(Stream):
         sol = {n: rng.choice(self.VERS[:3]) for n in names if rng.random() < 0.8}
         links = {n: sorted(rng.sample(self.VERS, rng.randint(1, 3))) for n in names if rng.random() < 0.8}
         released = [self._spell(rng, rng.choice(self.NAMES)) for _ in range(rng.choice([0, 1, 1, 2]))]
-        return {"solution": sol, "links": links, "released": released, "request": self._spell(rng, rng.choice(names))}
+        case = {"solution": sol, "links": links, "released": released, "request": self._spell(rng, rng.choice(names))}
+        if rng.random() < 0.4:
+            # a second --solution file (listed after the first): the first one that records a project answers for it
+            case["solution2"] = {n: rng.choice(self.VERS[:3]) for n in names if rng.random() < 0.7}
+        return case
+
+    @staticmethod
+    def _front(case):
+        """what the solution files offer together: first file first"""
+        from rv import graphlib as GL
+        front = dict(case["solution"])
+        for n, v in (case.get("solution2") or {}).items():
+            if GL.norm(n) not in {GL.norm(k) for k in front}:
+                front[n] = v
+        return front
 
     def impl(self, case):
         import contextlib
@@ -308,10 +322,16 @@ class ReleaseFallThrough(Stream):
         with open(os.path.join(d, "prior.txt"), "w") as f:
             for n, v in sorted(case["solution"].items()):
                 f.write("%s==%s  # in0.txt\n" % (n, v))
+        sols = [os.path.join(d, "prior.txt")]
+        if case.get("solution2") is not None:
+            with open(os.path.join(d, "prior2.txt"), "w") as f:
+                for n, v in sorted(case["solution2"].items()):
+                    f.write("%s==%s  # in0.txt\n" % (n, v))
+            sols.append(os.path.join(d, "prior2.txt"))
         out = {}
         try:
             with contextlib.redirect_stderr(io.StringIO()):
-                repo = C.build_repo([os.path.join(d, "prior.txt")], case["released"], [], [], [os.path.join(d, "links")], [], os.path.join(d, "w"), no_index=True)
+                repo = C.build_repo(sols, case["released"], [], [], [os.path.join(d, "links")], [], os.path.join(d, "w"), no_index=True)
                 try:
                     dist, _ = repo.get_dist(GL.P(case["request"]))
                     out["answer"] = str(dist.version)
@@ -325,7 +345,7 @@ class ReleaseFallThrough(Stream):
 
     def model_request(self, case, r):
         rank = {v: i + 1 for i, v in enumerate(self.VERS)}
-        return {"op": "stack-get", "front": [{"name": n, "versions": [rank[v]]} for n, v in case["solution"].items()],
+        return {"op": "stack-get", "front": [{"name": n, "versions": [rank[v]]} for n, v in self._front(case).items()],
                 "back": [{"name": n, "versions": [rank[v] for v in vs]} for n, vs in case["links"].items()],
                 "released": case["released"], "request": case["request"]}
 
@@ -341,7 +361,9 @@ class ReleaseFallThrough(Stream):
         fl = []
         req = GL.norm(case["request"])
         rel = {GL.norm(x) for x in case["released"]}
-        sol = {GL.norm(n) for n in case["solution"]}
+        sol = {GL.norm(n) for n in self._front(case)}
+        if case.get("solution2") is not None:
+            fl.append("two-solution-files")
         if req in rel and req in sol:
             fl.append("requested-project-released")
         if req in sol and req not in rel:
@@ -358,7 +380,7 @@ class ReleaseFallThrough(Stream):
             return [("C04/stack-raises", r)]
         req = GL.norm(case["request"])
         rel = {GL.norm(x) for x in case["released"]}
-        sol = {GL.norm(n): v for n, v in case["solution"].items()}
+        sol = {GL.norm(n): v for n, v in self._front(case).items()}
         links = {GL.norm(n): vs for n, vs in case["links"].items()}
         if req in sol and req not in rel:
             want, origin = sol[req], "SolutionRepository"
@@ -378,6 +400,8 @@ class ReleaseFallThrough(Stream):
             yield dict(case, released=case["released"][:i] + case["released"][i + 1:])
         for n in list(case["solution"]):
             yield dict(case, solution={k: v for k, v in case["solution"].items() if k != n})
+        for n in list(case.get("solution2") or {}):
+            yield dict(case, solution2={k: v for k, v in case["solution2"].items() if k != n})
         for n in list(case["links"]):
             yield dict(case, links={k: v for k, v in case["links"].items() if k != n})
 
